@@ -21,8 +21,11 @@ MustRefuse(sc) == \/ ~FormOK(sc.op, sc.form)
                   \/ (Req(sc.op) # {} /\ Qualified(sc) = {} /\ sc.enforce)
 \* outcome: Refuse (-1) or the index of the component that was used (and named in the output)
 Refuse == -1
+\* the one operation C16 requires to SUCCEED: decryption of a message addressed to a component of a usable private key with an identity
+\* ("decryption finds the addressed subkey") - whatever other session-key packets the message carries
+MustSucceed(sc) == sc.op = "decrypt" /\ FormOK(sc.op, sc.form) /\ sc.hasid
 Allowed(sc, out) ==
-  IF out = Refuse THEN TRUE                       \* refusing is always safe; progress is not part of C16
+  IF out = Refuse THEN ~MustSucceed(sc)           \* otherwise refusing is always safe; progress is not part of C16
   ELSE /\ ~MustRefuse(sc)
        /\ out \in Components(sc)
        \* a component whose latest self-signature grants the capability is used whenever there is one; switching enforcement off only
